@@ -1,6 +1,8 @@
 package main
 
 import (
+	"strings"
+
 	"golang.org/x/tools/go/ssa"
 )
 
@@ -111,4 +113,84 @@ func instrBefore(a, b ssa.Instruction) bool {
 		}
 	}
 	return a.Block().Dominates(b.Block())
+}
+
+// runC13PreviousGroups (O15): the fractional-GPU placement writes the chosen groups into the pod BEFORE it calls
+// Statement.Pipeline, so the pod's own GPUGroups field is not the previous value for a pod that some node still
+// indexes (an evicted pod being re-placed): its previous groups are those of the indexed copy — on the target node
+// (same-node move) or on the node it is releasing from (finding F25). Decided: the previous-groups value that
+// Pipeline hands to its inverse is assigned from the indexed copy of both nodes.
+func runC13PreviousGroups(c *Ctx) {
+	f := c.Anchor("O15", pkgFramework, "Statement", "Pipeline")
+	g := c.P.Func(pkgFramework, "Statement", "unpipeline")
+	if f == nil || g == nil {
+		return
+	}
+	// the parameter of the inverse that is stored into task.GPUGroups
+	k := -1
+	for _, in := range instrsIn(g, func(in ssa.Instruction) bool {
+		st, ok := in.(*ssa.Store)
+		return ok && termOf(st.Addr).lastField() == "GPUGroups"
+	}) {
+		if prm, ok := stripConv(in.(*ssa.Store).Val).(*ssa.Parameter); ok {
+			for i, p := range g.Params {
+				if p == prm {
+					k = i
+				}
+			}
+		}
+	}
+	if k < 0 {
+		c.Viol("O15", "PROV", funcKey(g)+": restores GPUGroups from a handed-over value", g.Pos(), "no parameter of the inverse is stored into task.GPUGroups")
+		return
+	}
+	n := 0
+	for _, in := range instrsIn(f, func(in ssa.Instruction) bool { _, ok := in.(*ssa.MakeClosure); return ok }) {
+		mc := in.(*ssa.MakeClosure)
+		closure, _ := mc.Fn.(*ssa.Function)
+		if closure == nil {
+			continue
+		}
+		for _, call := range instrsIn(closure, isCallToFn(g)) {
+			args := call.(ssa.CallInstruction).Common().Args
+			if k >= len(args) {
+				continue
+			}
+			var bound ssa.Value
+			switch x := stripConv(args[k]).(type) {
+			case *ssa.UnOp:
+				if fv, ok := x.X.(*ssa.FreeVar); ok {
+					bound = bindingOf(closure, mc, fv)
+				}
+			case *ssa.FreeVar:
+				bound = bindingOf(closure, mc, x)
+			}
+			if bound == nil {
+				continue
+			}
+			n++
+			target, previous := false, false
+			var seen []string
+			for _, v := range storedValues(bound) {
+				t := termOf(v)
+				s := t.String()
+				seen = append(seen, s)
+				if t.lastField() != "GPUGroups" || !strings.Contains(s, ".PodInfos") {
+					continue
+				}
+				// which node's index: keyed by the hostname parameter, or by the pod's (previous) NodeName
+				if strings.Contains(s, "param:2:") {
+					target = true
+				}
+				if strings.Contains(s, ".NodeName") {
+					previous = true
+				}
+			}
+			c.Check(target, "O15", "PROV", funcKey(f)+": previous GPU groups of a pod indexed on the target node come from that copy", instrPos(call), "assigned from Nodes[hostname].PodInfos[key].GPUGroups",
+				"the previous GPU groups kept for the undo never come from the target node's indexed copy (values: "+strings.Join(seen, " | ")+"): the caller has already stored the new groups in the pod, a same-node move is undone onto the new group")
+			c.Check(previous, "O15", "PROV", funcKey(f)+": previous GPU groups of a pod still releasing from another node come from that copy", instrPos(call), "assigned from Nodes[task.NodeName].PodInfos[key].GPUGroups",
+				"the previous GPU groups kept for the undo never come from the copy indexed on the node the pod is releasing from (values: "+strings.Join(seen, " | ")+"): the caller has already stored the new groups in the pod, so after a rollback the still-releasing pod carries the groups of the abandoned placement")
+		}
+	}
+	c.Floor("O15", "PROV reverse closures of Pipeline", n, 1)
 }
